@@ -144,3 +144,256 @@ Proof.
   destruct n as [|p]; [inversion He; subst; cbn [fm fs_ic]; split; [|constructor]; rok|].
   repeat (destruct p as [p|p|]; try discriminate He); inversion He; subst; clear He; cbn [fm fs_ic]; (split; [|constructor]); rok.
 Qed.
+
+(** * the read-item layer and the ordering, for every catalogue entry
+    [MOKw M SP IS]: the packed region [M] meets the region contract, its read items meet the
+    item laws (C13/C14/C20: index denotes read, borrow, clone_onto, push_item = push) and, where the
+    Rust type has an [Ord], comparing items is comparing the owned values under a total order (C15). *)
+From FC Require Import Region.ItemsOk Region.Compare Region.ItemsCodec.
+
+Record MOKw (M : MRegion) (SP : RSpec (mr M)) (IS : ISpec (mi M)) : Prop := {
+  mok_region : @RegionOK (mr M) SP;
+  mok_items : @ItemsOK (mr M) SP (mi M) IS;
+  mok_ord : forall C, m_ord M = Some C -> @ItemOrdOK (mr M) SP (mi M) IS C;
+}.
+Definition MOK (M : MRegion) : Prop := exists SP IS, @MOKw M SP IS.
+Definition MDOK (M : MRegion) (PI : PairIdx (mr M)) : Prop :=
+  exists SP IS, @MOKw M SP IS /\ inhabited (@Dense (mr M) SP PI).
+Lemma mdok_mok M PI : @MDOK M PI -> MOK M.
+Proof. intros (SP & IS & H & _). exists SP, IS. exact H. Qed.
+
+Definition ecmp_ok (E : Elem) : Prop := forall c, e_cmp E = Some c -> TotalCmp c.
+Lemma ecmp_word bits : ecmp_ok (e_word bits).
+Proof. intros c Hc. inversion Hc; subst. apply N_cmp_total. Qed.
+Lemma ecmp_unit : ecmp_ok e_unit.
+Proof. intros c Hc. inversion Hc; subst. apply unit_cmp_total. Qed.
+Lemma ecmp_f64 : ecmp_ok e_f64.
+Proof. intros c Hc. discriminate. Qed.
+
+Lemma option_map_some {A B} (f : A -> B) o y : option_map f o = Some y -> exists x, o = Some x /\ y = f x.
+Proof. destruct o as [x|]; cbn; [|discriminate]. intros H. inversion H. eauto. Qed.
+
+Lemma mok_owned E : ecmp_ok E -> MOK (m_owned E).
+Proof.
+  intros HE. exists (owned_spec (e_ty E)), (owned_ispec (e_ty E)). constructor.
+  - apply owned_ok.
+  - apply owned_items_ok.
+  - intros C HC. cbn [m_ord m_owned] in HC. apply option_map_some in HC. destruct HC as (c & Hc & ->).
+    apply (@owned_ord_ok (e_ty E) c (HE c Hc)).
+Qed.
+Lemma mdok_owned E : ecmp_ok E -> @MDOK (m_owned E) (owned_pair (e_ty E)).
+Proof.
+  intros HE. destruct (mok_owned HE) as (SP & IS & H).
+  exists (owned_spec (e_ty E)), (owned_ispec (e_ty E)). split; [|constructor; apply owned_dense].
+  constructor; [apply owned_ok|apply owned_items_ok|].
+  intros C HC. cbn [m_ord m_owned] in HC. apply option_map_some in HC. destruct HC as (c & Hc & ->).
+  apply (@owned_ord_ok (e_ty E) c (HE c Hc)).
+Qed.
+Lemma mok_mirror E : ecmp_ok E -> MOK (m_mirror E).
+Proof.
+  intros HE. exists (mirror_spec (e_ty E)), (mirror_ispec (e_ty E)). constructor.
+  - apply mirror_ok.
+  - apply mirror_items_ok.
+  - intros C HC. cbn [m_ord m_mirror] in HC. apply option_map_some in HC. destruct HC as (c & Hc & ->).
+    apply (@mirror_ord_ok (e_ty E) c (HE c Hc)).
+Qed.
+Lemma mok_vec E : ecmp_ok E -> MOK (m_vec E).
+Proof.
+  intros HE. exists (vec_region_spec (e_ty E)), (vec_region_ispec (e_ty E)). constructor.
+  - apply vec_region_ok.
+  - apply vec_region_items_ok.
+  - intros C HC. cbn [m_ord m_vec] in HC. apply option_map_some in HC. destruct HC as (c & Hc & ->).
+    apply (@vec_region_ord_ok (e_ty E) c (HE c Hc)).
+Qed.
+
+Lemma mokw_string wf M SP IS : @MOKw M SP IS ->
+  @MOKw (m_string wf M) (@string_spec (mr M) (fun _ => True) SP) (@string_ispec (mr M) (mi M) IS).
+Proof.
+  intros [HR HI HO]. constructor.
+  - apply string_ok. exact HR.
+  - apply (@string_items_ok (mr M) (fun _ => True) SP (mi M) IS HI).
+  - intros C HC. cbn [m_ord m_string] in HC. apply option_map_some in HC. destruct HC as (c & Hc & ->).
+    apply (@string_ord_ok (mr M) (fun _ => True) SP (mi M) IS c (HO c Hc)).
+Qed.
+Lemma mok_string wf M : MOK M -> MOK (m_string wf M).
+Proof. intros (SP & IS & H). eexists _, _. apply mokw_string. exact H. Qed.
+Lemma mdok_string wf M PI : @MDOK M PI -> @MDOK (m_string wf M) (@string_pair (mr M) PI).
+Proof.
+  intros (SP & IS & H & [D]). eexists _, _. split; [apply mokw_string; exact H|]. constructor.
+  refine (@Build_Dense (string_region (mr M)) (@string_spec (mr M) (fun _ => True) SP) (@string_pair (mr M) PI) (@extent (mr M) SP PI D) _ _ _ _ _ _).
+  - apply (@of_to (mr M) SP PI D).
+  - apply (@extent_dflt (mr M) SP PI D).
+  - apply (@extent_clear (mr M) SP PI D).
+  - apply (@extent_merge (mr M) SP PI D).
+  - apply (@extent_sim (mr M) SP PI D).
+  - apply (@dense_push (mr M) SP PI D).
+Qed.
+
+Lemma mok_option M : MOK M -> MOK (m_option M).
+Proof.
+  intros (SP & IS & [HR HI HO]). exists (@option_spec (mr M) SP), (@option_ispec (mr M) (mi M) IS). constructor.
+  - apply (@option_ok (mr M) SP HR).
+  - apply (@option_items_ok (mr M) SP (mi M) IS HI).
+  - intros C HC. cbn [m_ord m_option] in HC. apply option_map_some in HC. destruct HC as (c & Hc & ->).
+    apply (@option_ord_ok (mr M) SP (mi M) IS c HI (HO c Hc)).
+Qed.
+Lemma mok_result A B : MOK A -> MOK B -> MOK (m_result A B).
+Proof.
+  intros (SA & IA & [HRA HIA HOA]) (SB & IB & [HRB HIB HOB]).
+  exists (@result_spec (mr A) (mr B) SA SB), (@result_ispec (mr A) (mr B) (mi A) (mi B) IA IB). constructor.
+  - apply (@result_ok (mr A) (mr B) SA HRA SB HRB).
+  - apply (@result_items_ok (mr A) (mr B) SA SB (mi A) (mi B) IA IB HIA HIB).
+  - intros C HC. cbn [m_ord m_result] in HC.
+    destruct (m_ord A) as [ca|]; [|discriminate]. destruct (m_ord B) as [cb|]; [|discriminate]. inversion HC; subst.
+    apply (@result_ord_ok (mr A) (mr B) SA SB (mi A) (mi B) IA IB ca cb (HOA ca eq_refl) (HOB cb eq_refl)).
+Qed.
+Lemma mok_tuple2 A B : MOK A -> MOK B -> MOK (m_tuple2 A B).
+Proof.
+  intros (SA & IA & [HRA HIA HOA]) (SB & IB & [HRB HIB HOB]).
+  exists (@tuple2_spec (mr A) (mr B) SA SB), (@tuple2_ispec (mr A) (mr B) (mi A) (mi B) IA IB). constructor.
+  - apply (@tuple2_ok (mr A) (mr B) SA HRA SB HRB).
+  - apply (@tuple2_items_ok (mr A) (mr B) SA SB (mi A) (mi B) IA IB HIA HIB).
+  - intros C HC. cbn [m_ord m_tuple2] in HC.
+    destruct (m_ord A) as [ca|]; [|discriminate]. destruct (m_ord B) as [cb|]; [|discriminate]. inversion HC; subst.
+    apply (@tuple2_ord_ok (mr A) (mr B) SA SB (mi A) (mi B) IA IB ca cb (HOA ca eq_refl) (HOB cb eq_refl)).
+Qed.
+
+Lemma mokw_slice M (O : IC (idx (mr M))) SP IS (HO : ICOk O) : @MOKw M SP IS ->
+  @MOKw (m_slice M O) (@slice_spec (mr M) O SP HO) (@slice_ispec (mr M) SP O HO (mi M)).
+Proof.
+  intros [HR HI HOr]. constructor.
+  - apply (@slice_ok (mr M) O SP HR HO).
+  - apply (@slice_items_ok (mr M) SP HR O HO (mi M) IS HI).
+  - intros C HC. cbn [m_ord m_slice] in HC. apply option_map_some in HC. destruct HC as (c & Hc & ->).
+    apply (@slice_ord_ok (mr M) SP HR O HO (mi M) IS HI c (HOr c Hc)).
+Qed.
+Lemma mok_slice M (O : IC (idx (mr M))) : MOK M -> ICOk O -> MOK (m_slice M O).
+Proof. intros (SP & IS & H) HO. eexists _, _. apply (@mokw_slice M O SP IS HO H). Qed.
+Lemma mok_slice_vec M isz : MOK M -> MOK (m_slice_vec M isz).
+Proof.
+  intros HM. destruct (@mok_slice M (vec_ic (idx (mr M)) isz) HM (vec_ic_ok _ _)) as (SP & IS & [HR HI HO]).
+  exists SP, IS. constructor; [exact HR|exact HI|exact HO].
+Qed.
+
+Lemma mdok_slice M (O : IC (idx (mr M))) : MOK M -> ICOk O -> @MDOK (m_slice M O) (slice_pair (mr M) O).
+Proof.
+  intros (SP & IS & H) HO. eexists _, _. split; [apply (@mokw_slice M O SP IS HO H)|]. constructor.
+  destruct H as [HR _ _].
+  refine (@Build_Dense (slice (mr M) O) (@slice_spec (mr M) O SP HO) (slice_pair (mr M) O)
+            (fun x : ic_st O * st (mr M) => length (ic_abs (fst x))) _ _ _ _ _ _).
+  - intros [a b]. reflexivity.
+  - cbn. now rewrite abs_default.
+  - intros [so sr]. cbn. now rewrite abs_clear.
+  - intros l. cbn. now rewrite abs_default.
+  - intros [so sr] [to tr] [Habs _]. cbn in *. now rewrite Habs.
+  - intros [so sr] v [so' sr'] i (Hio & Hi & _) Hp. cbn [push slice fst snd] in Hp.
+    destruct (push_all (mr M) sr v) as [[sr1 is]|]; cbn [bind] in Hp; [|discriminate]. inversion Hp; subst.
+    destruct (@push_all_ic _ O HO is so Hio) as [Hio' _].
+    cbn [to_pair slice_pair fst snd]. now rewrite !abs_len by assumption.
+Qed.
+Lemma mdok_slice_vec M isz : MOK M -> @MDOK (m_slice_vec M isz) (slice_pair (mr M) (vec_ic (idx (mr M)) isz)).
+Proof.
+  intros HM. destruct (@mdok_slice M (vec_ic (idx (mr M)) isz) HM (vec_ic_ok _ _)) as (SP & IS & [HR HI HO] & D).
+  exists SP, IS. split; [constructor; [exact HR|exact HI|exact HO]|exact D].
+Qed.
+
+Lemma mok_collapse M : MOK M -> (forall v w, m_veq M v w = true -> v = w) -> MOK (m_collapse M).
+Proof.
+  intros (SP & IS & [HR HI HO]) Hs.
+  exists (@collapse_spec (mr M) (m_veq M) SP), (@collapse_ispec (mr M) (m_veq M) (mi M) IS). constructor.
+  - apply (@collapse_ok (mr M) (m_veq M) SP HR Hs).
+  - apply (@collapse_items_ok (mr M) (m_veq M) SP (mi M) IS HI).
+  - intros C HC. cbn [m_ord m_collapse] in HC. apply option_map_some in HC. destruct HC as (c & Hc & ->).
+    apply (@collapse_ord_ok (mr M) (m_veq M) SP (mi M) IS c (HO c Hc)).
+Qed.
+
+Lemma mok_consec M PI (O : IC nat) chk : @MDOK M PI -> ICOk O -> MOK (@m_consec M PI O chk).
+Proof.
+  intros (SP & IS & [HR HI HOr] & [D]) HO.
+  exists (@consec_spec (mr M) SP PI D O HO chk), (@consec_ispec (mr M) PI O chk (mi M) IS). constructor.
+  - apply (@consec_ok (mr M) SP HR PI D O HO chk).
+  - apply (@consec_items_ok (mr M) SP HR PI D O HO chk (mi M) IS HI).
+  - intros C HC. cbn [m_ord m_consec] in HC. apply option_map_some in HC. destruct HC as (c & Hc & ->).
+    apply (@consec_ord_ok (mr M) SP HR PI D O HO chk (mi M) IS c (HOr c Hc)).
+Qed.
+
+Lemma mok_columns M (O : IC nat) chk csz isz : MOK M -> ICOk O -> MOK (m_columns M O chk csz isz).
+Proof.
+  intros (SP & IS & [HR HI HOr]) HO.
+  exists (@columns_spec (mr M) SP O HO chk), (@columns_ispec (mr M) SP O chk (mi M)). constructor.
+  - apply (@columns_ok (mr M) SP HR O HO chk).
+  - apply (@columns_items_ok (mr M) SP HR O HO chk (mi M) IS HI).
+  - intros C HC. discriminate HC.
+Qed.
+
+Lemma codec_E : forall x : list N, (fun v : list N => v) ((fun v : list N => v) x) = x.
+Proof. reflexivity. Qed.
+Lemma codec_T : forall (s : st (owned N)) (w : val (owned N)), dom s w.
+Proof. intros; exact I. Qed.
+
+Lemma mokw_codec : @MOKw m_codec (@codec_region_spec (owned N) (owned_spec N) (fun v : list N => v) (fun v : list N => v))
+                      (@codec_ispec (owned N) (fun v : list N => v) (fun v : list N => v)).
+Proof.
+  constructor.
+  - apply (@codec_region_ok (owned N) (owned_spec N) (owned_ok N) _ _ codec_E codec_T).
+  - apply (@codec_items_ok (owned N) (owned_spec N) (owned_ok N) _ _ codec_E codec_T).
+  - intros C HC. cbn [m_ord m_codec] in HC. inversion HC; subst.
+    apply (@codec_ord_ok (owned N) (owned_spec N) (fun v : list N => v) (fun v : list N => v) N.compare N_cmp_total).
+Qed.
+Lemma mok_codec : MOK m_codec.
+Proof. eexists _, _. exact mokw_codec. Qed.
+Lemma mdok_codec : @MDOK m_codec codec_pair.
+Proof.
+  eexists _, _. split; [exact mokw_codec|]. constructor.
+  refine (@Build_Dense codec_owned _ codec_pair (fun x : list N * codec => length (fst x)) _ _ _ _ _ _).
+  - intros [a b]. reflexivity.
+  - reflexivity.
+  - intros [s c]. reflexivity.
+  - intros l. reflexivity.
+  - intros [s c] [t d] [Hs _]. cbn in *. now rewrite Hs.
+  - intros [s c] v [s' c'] i _ Hp. cbn [push codec_owned codec_region fst snd] in Hp.
+    destruct (stored_form c v) as [sf|]; cbn [bind] in Hp; [|discriminate].
+    cbn [push owned] in Hp. inversion Hp; subst. cbn. now rewrite app_length.
+Qed.
+Lemma mok_huffman bits : MOK (m_huffman bits).
+Proof.
+  exists huffman_spec, huffman_ispec. constructor.
+  - apply huffman_ok.
+  - apply huffman_items_ok.
+  - intros C HC. cbn [m_ord m_huffman] in HC. inversion HC; subst. apply (@huffman_ord_ok N.compare N_cmp_total).
+Qed.
+
+Lemma mdok_str_owned wf bits : @MDOK (m_string wf (m_owned (e_word bits))) (owned_pair N).
+Proof. exact (@mdok_string wf (m_owned (e_word bits)) (owned_pair N) (mdok_owned (@ecmp_word bits))). Qed.
+Lemma mdok_str_codec wf : @MDOK (m_string wf m_codec) codec_pair.
+Proof. exact (@mdok_string wf m_codec codec_pair mdok_codec). Qed.
+
+Ltac mok :=
+  repeat first
+    [ apply mdok_str_owned | apply mdok_str_codec | apply mok_codec | apply mok_huffman | apply mdok_codec
+    | (apply mok_owned; first [apply ecmp_word | apply ecmp_unit | apply ecmp_f64])
+    | (apply mdok_owned; first [apply ecmp_word | apply ecmp_unit | apply ecmp_f64])
+    | (apply mok_mirror; first [apply ecmp_word | apply ecmp_unit | apply ecmp_f64])
+    | (apply mok_vec; first [apply ecmp_word | apply ecmp_unit | apply ecmp_f64])
+    | apply mok_string | apply mdok_string | apply mok_option | apply mok_result | apply mok_tuple2
+    | apply mok_slice_vec | apply mdok_slice_vec | apply mok_slice | apply mdok_slice
+    | apply mok_columns | apply mok_consec
+    | (apply mok_collapse; [|solve [veq_sound]])
+    | apply vec_ic_ok | apply index_list_ok | apply index_optimized_ok | apply ic_nat_ok ].
+
+(** EVERY region of the catalogue (except the two stated exceptions): region contract, read-item
+    laws and -- where the Rust type is ordered -- the ordering law. *)
+Theorem catalogue_full chk szs n e : entry chk szs n = Some e -> n <> 21%N -> n <> 29%N ->
+  exists (SP : RSpec (mr e)) (IS : ISpec (mi e)),
+    @RegionOK (mr e) SP /\ @ItemsOK (mr e) SP (mi e) IS /\
+    forall C, m_ord e = Some C -> @ItemOrdOK (mr e) SP (mi e) IS C.
+Proof.
+  intros He H21 H29.
+  assert (HM : MOK e).
+  { unfold entry in He.
+    destruct n as [|p]; [inversion He; subst; mok|].
+    repeat (destruct p as [p|p|]; try discriminate He);
+      try (exfalso; apply H21; reflexivity); try (exfalso; apply H29; reflexivity);
+      inversion He; subst; clear He; mok. }
+  destruct HM as (SP & IS & [HR HI HO]). exists SP, IS. auto.
+Qed.
